@@ -74,6 +74,10 @@ def build(race):
     cdir = os.path.join(VERIF, ".cache", "bin", th)
     binp = os.path.join(cdir, "sim.test")
     if os.path.exists(binp):
+        try:
+            os.utime(cdir)  # in use: keeps it out of the pruning below
+        except OSError:
+            pass
         return binp, th
     scratch = tempfile.mkdtemp(prefix="verif-build-", dir=os.environ.get("VERIF_SCRATCH", "/var/tmp"))
     try:
@@ -92,11 +96,13 @@ def build(race):
             shutil.copy(os.path.join(scratch, name), tmpn)
             os.replace(tmpn, os.path.join(cdir, name))
         print("built harness for tree %s in %.1fs" % (th, time.time() - t0), flush=True)
-        # keep the cache small: drop all but the 6 newest binaries
+        # keep the cache small: drop all but the 6 newest binaries - but none that was built or
+        # used in the last 20 minutes (a check running beside this one may be executing it)
         root = os.path.join(VERIF, ".cache", "bin")
         ents = sorted((os.path.getmtime(os.path.join(root, e)), e) for e in os.listdir(root))
-        for _, e in ents[:-6]:
-            shutil.rmtree(os.path.join(root, e), ignore_errors=True)
+        for mt, e in ents[:-6]:
+            if time.time() - mt > 1200:
+                shutil.rmtree(os.path.join(root, e), ignore_errors=True)
         # ... and the Go build cache below a few GB (every distinct tree adds to it): when it
         # has grown past the limit its least recently used half goes
         gob = os.path.join(VERIF, ".cache", "go-build")
